@@ -411,6 +411,63 @@ def check_scales(case, t):
                        [[B[p]._d, repr(B[p]._s)], [B[q]._d, repr(B[q]._s)]],
                        f"{dt0.isoformat()} {X}: seen as {p} and as {q} the two dates compare equal, stored seconds {B[p]._s!r} vs {B[q]._s!r}")
                 t.outcome("hash differs on equal dates")
+    # ---- the target scale in every accepted form; identity conversions; Date(..., scale=<Timescale object>) ----
+    for Y in SCALES:
+        forms = [("name", Y), ("Timescale object of another date", B[Y].scale if Y in B else None)]
+        if Y == X:
+            forms.append(("the date's own Timescale object", a.scale))
+        for fname, target in forms:
+            if target is None:
+                continue
+            try:
+                b2 = a.change_scale(target)
+                a7 = Date(dt0, scale=target) if Y == X else None
+            except Exception as e:
+                t.fail("Date.change_scale/scale-given-as/raises", "a scale is accepted by name or as a Timescale object, for every pair including the identity",
+                       case, "Date", repr(e), f"{X}->{Y}, target given as {fname}")
+                continue
+            t.trans(2 if a7 is not None else 1)
+            t.ev()
+            ref_, tol_ = (B[Y], FLOAT) if Y != X else (a, FLOAT if X in EXACT else 1e-6 + FLOAT)
+            if b2.scale.name != Y or not (abs(stored_diff(b2, ref_)) <= tol_):
+                t.fail(classify([(X, Y)], stored_diff(b2, ref_), "Date.change_scale/scale-given-as/different-result") if Y == X else
+                       "Date.change_scale/scale-given-as/different-result", "the result does not depend on how the target scale is designated",
+                       case, 0.0, stored_diff(b2, ref_), f"{X}->{Y}, target given as {fname}")
+            if a7 is not None and not (abs(stored_diff(a7, a)) <= FLOAT):
+                t.fail("Date.__init__/scale-given-as/different-result", "Date(..., scale=<Timescale object>) is Date(..., scale=<name>)", case, 0.0, stored_diff(a7, a), X)
+
+    # ---- elapsed time between two dates of the SAME scale: the TAI interval, whatever the scale ----
+    if not (X == "UT1" and seam):
+        for span_d in (1, -1, 30, -30, 180):
+            clock2 = clock0 + span_d * DAY
+            try:
+                i2 = m.tai_from_clock(X, clock2)
+                if len(i2) != 1 or m.near_leap(i2[0]):
+                    raise KeyError
+                days2 = sorted(set((c + e) // DAY for c in m.clocks(i2[0]).values() for e in (-2 * US, 0, 2 * US)))
+                if pick_model(cfg, days2) is not m or (X == "UT1" and len(days2) > 1):
+                    raise KeyError
+            except (KeyError, ts.Ambiguous):
+                t.exclude("second date of an elapsed-time pair outside the table / in a leap-second window / UT1 reading in a day seam")
+                continue
+            try:
+                d2 = Date(dt_of(clock2), scale=X)
+                el = (d2 - a) / timedelta(microseconds=1)
+                el_back = (a - d2) / timedelta(microseconds=1)
+            except Exception as e:
+                t.fail("Date.__sub__/raises", "the difference of two dates is defined", case, "timedelta", repr(e), f"{span_d} d in {X}")
+                continue
+            t.trans(3)
+            t.ev()
+            exp_us = (i2[0] - inst) / US
+            tol_us = 0.0 if X in EXACT else 1.0 if X == "UT1" else 1.2  # two stored instants rounded to the us (+ TDB model constants)
+            err = max(abs(el - exp_us), abs(el_back + exp_us))
+            if X not in EXACT:
+                t.margin("elapsed time between two dates of one scale (UT1, TDB) [us] (tol 1 us)", err, tol_us, case)
+            if err > tol_us + 1e-6:
+                t.fail(f"Date.__sub__/{cls_of(X)}/elapsed-time-between-dates-of-one-scale", "d2 - d1 is the elapsed (TAI) time between the two instants, whatever the scale both are labelled in",
+                       dict(case, span_days=span_d), exp_us, el, f"{X}: {dt0.isoformat()} and the same reading {span_d:+d} d: d2 - d1 = {el} us, model {exp_us} us")
+
     try:
         later = {1: Date(dt_of(clock0 + 1 * US), scale=X), 5: Date(dt_of(clock0 + 5 * US), scale=X)}
     except Exception as e:
